@@ -41,8 +41,9 @@ import (
 //     counts the subscriber callbacks LocalPubSub starts (`go cb()`) so that the
 //     harness knows when every listen() has returned, and cuts a stopped or
 //     crashed process off (nothing is delivered to it, a crashed one says nothing).
-// A callback is awaited exactly when the node reported a new peer hash (its
-// peer_hash gauge changed). Wall-clock time is only a hang detector.
+// A callback is awaited exactly when a node that handled a message stored a new
+// peer hash (peer.C13Hash: checkHash starts the callbacks exactly then).
+// Wall-clock time is only a hang detector.
 //
 // Observed after every step, on every running node: len(GetPeers()) (strict
 // model only), and GoalThroughputPerSec of the live dynsampler instances.
@@ -252,7 +253,6 @@ type c13Node struct {
 	p          *peer.RedisPubsubPeers
 	clock      *c13Clock
 	pub        *c13Ticker
-	met        *metrics.MockMetrics
 	done       chan struct{}
 	doneClosed bool
 	tap        *c13Tap
@@ -384,8 +384,6 @@ func (h *c13Harness) Reset(init map[string]any) error {
 func (h *c13Harness) start(id string) error {
 	n := &c13Node{id: id, done: make(chan struct{})}
 	n.clock = &c13Clock{FakeClock: h.fc, sig: make(chan struct{}, 1)}
-	n.met = &metrics.MockMetrics{}
-	n.met.Start()
 	n.p = &peer.RedisPubsubPeers{
 		Config: &config.MockConfig{
 			GetPeerListenAddrVal: "0.0.0.0:8081",
@@ -393,7 +391,7 @@ func (h *c13Harness) start(id string) error {
 			PeerManagementType:   "redis",
 			PeerTimeout:          5 * time.Second,
 		},
-		Metrics:    n.met,
+		Metrics:    &metrics.NullMetrics{},
 		Logger:     &logger.NullLogger{},
 		PubSub:     &c13Bus{hub: h.hub, id: id},
 		Clock:      n.clock,
@@ -434,18 +432,10 @@ func (h *c13Harness) start(id string) error {
 
 // settle waits until every listen() started by the last publish has returned,
 // and then for the callbacks of every node that reported a new peer hash.
-func (h *c13Harness) settle(hash map[string][2]float64, ran map[string]int64) {
+func (h *c13Harness) settle(hash map[string]uint64, ran map[string]int64) {
 	h.hub.waitDelivered()
 	for id, n := range h.nodes {
-		if h.status[id] != "up" {
-			continue
-		}
-		v, ok := n.met.Get("peer_hash")
-		now := [2]float64{v, 0}
-		if ok {
-			now[1] = 1
-		}
-		if now == hash[id] {
+		if h.status[id] != "up" || peer.C13Hash(n.p) == hash[id] {
 			continue
 		}
 		deadline := time.After(c13Hang)
@@ -474,14 +464,10 @@ func (h *c13Harness) Apply(a map[string]any) (err error) {
 			drained = true
 		}
 	}
-	hash := map[string][2]float64{}
+	hash := map[string]uint64{} // no listen() is running between two steps
 	ran := map[string]int64{}
 	for id, n := range h.nodes {
-		v, ok := n.met.Get("peer_hash")
-		hash[id] = [2]float64{v, 0}
-		if ok {
-			hash[id] = [2]float64{v, 1}
-		}
+		hash[id] = peer.C13Hash(n.p)
 		ran[id] = n.tap.ran.Load()
 	}
 	id := verifkit.Str(a, "n")
